@@ -28,7 +28,7 @@ func (g *lineGen) add(fields ...string) {
 	}
 }
 
-var c11Mimes = []string{"", "application/json", "x", lspMime, "a:b; c  d"}
+var c11Mimes = []string{"", "application/json", "x", lspMime, "a:b; c  d", "X", "Application/JSON; charset=UTF-8"}
 
 func c11SplitFramings() []string {
 	return []string{"line", "split:0a", "split:00", "split:ff", "split:61", "split:0d", "split:22"}
